@@ -139,6 +139,12 @@ pub struct Core {
     pub transfers: u64,
     pub short_transfers: u64,
     pub max_len: u64,
+    /// virtual hole: `data[i]` is the byte at absolute position `base + i`; the positions below `base` hold no storage
+    /// (reads there return zeros, writes there are only counted) -- streams whose interesting part lies beyond 4 GiB
+    pub base: u64,
+    pub below_base_writes: u64,
+    /// transient fault: the next `fail_next` operations fail, later ones succeed again
+    pub fail_next: u64,
 }
 
 impl Core {
@@ -157,6 +163,9 @@ impl Core {
             nops: 0,
             faults_hit: 0,
             first_fault_kind: None,
+            base: 0,
+            below_base_writes: 0,
+            fail_next: 0,
             transfers: 0,
             short_transfers: 0,
             max_len: 1 << 32,
@@ -167,6 +176,10 @@ impl Core {
         let idx = self.nops;
         self.nops += 1;
         let mut fail = false;
+        if self.fail_next > 0 {
+            self.fail_next -= 1;
+            fail = true;
+        }
         if let Some(k) = self.fail_from {
             if idx >= k {
                 fail = true;
@@ -202,8 +215,14 @@ impl Core {
 
     pub fn do_read(&mut self, buf: &mut [u8]) -> Result<usize> {
         self.gate(OpKind::Read, buf.len() as u64)?;
+        if self.pos < self.base {
+            let n = (buf.len() as u64).min(self.base - self.pos) as usize;
+            buf[..n].fill(0);
+            self.pos += n as u64;
+            return Ok(n);
+        }
         let len = self.data.len() as u64;
-        let start = self.pos.min(len) as usize;
+        let start = (self.pos - self.base).min(len) as usize;
         let avail = self.data.len() - start;
         let mut n = buf.len().min(avail);
         if n > 0 {
@@ -255,7 +274,13 @@ impl Core {
                 return Err(Error::new(ErrorKind::InvalidInput, "write beyond the stream's maximum length"));
             }
         }
-        let p = self.pos as usize;
+        if self.pos < self.base {
+            let n = (n as u64).min(self.base - self.pos);
+            self.below_base_writes += n;
+            self.pos += n;
+            return Ok(n as usize);
+        }
+        let p = (self.pos - self.base) as usize;
         if n > 0 {
             if self.data.len() < p {
                 self.data.resize(p, 0);
@@ -280,7 +305,7 @@ impl Core {
     pub fn do_seek(&mut self, to: SeekFrom) -> Result<u64> {
         let target: Option<u64> = match to {
             SeekFrom::Start(p) => Some(p),
-            SeekFrom::End(d) => (self.data.len() as u64).checked_add_signed(d),
+            SeekFrom::End(d) => (self.base + self.data.len() as u64).checked_add_signed(d),
             SeekFrom::Current(d) => self.pos.checked_add_signed(d),
         };
         self.gate(OpKind::Seek, target.unwrap_or(u64::MAX))?;
